@@ -289,6 +289,8 @@ struct World
   long bursts_at[6]{0, 0, 0, 0, 0, 0};
   bool draining{false};
   int cur_point{0};
+  int force_pair_at_y2_hit{0}; // C05: run the pair-then-tick composite at the k-th queue visit of the next poll
+  int y2_hits_in_poll{0};
   bool stalls_enabled{true};  // C05: a third of the cases only (a late statement voids the ordering claim for the whole case)
   long exited_since_idle{0};  // thread exits since the backend last reached its idle branch (C20 / F9)
   long max_exited_between_idles{0};
